@@ -15,7 +15,7 @@ def sh(cmd, **kw):
 
 def main():
     src = sys.argv[1].rstrip('/')
-    name = os.path.basename(src).replace('seed_', '')
+    name = os.path.basename(src).replace('seed_', '') if os.path.basename(src).startswith('seed_') else os.path.basename(src)
     ids = sys.argv[2:] or ALL
     wt = '/tmp/vs_wt_%s' % name
     sh('git -C /repo worktree remove --force %s' % wt)
@@ -67,7 +67,7 @@ def main():
     dst = os.path.join(V, 'seeded', name)
     os.makedirs(dst, exist_ok=True)
     for f in os.listdir(src):
-        if os.path.isfile(os.path.join(src, f)) and os.path.getsize(os.path.join(src, f)) < 2_000_000:
+        if os.path.abspath(src) != os.path.abspath(dst) and os.path.isfile(os.path.join(src, f)) and os.path.getsize(os.path.join(src, f)) < 2_000_000:
             shutil.copy(os.path.join(src, f), dst)
     try:
         meta = json.load(open(os.path.join(src, 'meta.json')))
